@@ -1242,3 +1242,57 @@ pub fn f_dupcreate(seed: u64) -> Plan {
     plan.phases.push(Phase { scripts: vec![after], advance_us: *rng.pick(&[0u64, 13_000_000]), audit: true });
     plan
 }
+
+// ------------------------------------------------------------------------------------------------
+// F-consumers-saturated: waiting consumers, an availability event and a cancellation while the
+// subscription's mailbox is saturated by a burst (a woken consumer may have to wait for a slot).
+// ------------------------------------------------------------------------------------------------
+
+pub fn f_consumers_saturated(seed: u64) -> Plan {
+    let mut rng = Rng::new(seed);
+    let mut plan = Plan { seed, family: "consumers_saturated".into(), final_drain: true, health_probe: true, ..Default::default() };
+    plan.tags.push("double_audit".into());
+    plan.knobs = knobs(&mut rng, false, 0);
+    if plan.knobs.site_mask != 0 {
+        plan.knobs.yield_permille = *rng.pick(&[150u32, 300, 500]);
+        plan.knobs.max_yields = rng.range(1, 4) as u32;
+    }
+    let topic = topic_name("proj-s", 0);
+    let sub = sub_name("proj-s", 0, 0);
+    plan.phases.push(Phase {
+        scripts: vec![vec![Step::new(Op::CreateTopic { topic: topic.clone() }), Step::new(Op::CreateSub { sub: sub.clone(), topic: topic.clone(), ack_deadline: 10, push: None })]],
+        advance_us: 0,
+        audit: false,
+    });
+    // consumers park
+    let n_cons = rng.range(2, 4) as u32;
+    let mut scripts = Vec::new();
+    for slot in 1..=n_cons {
+        scripts.push(vec![Step::new(Op::PullBg { slot, sub: sub.clone(), max: *rng.pick(&[1i32, 10]) })]);
+    }
+    plan.phases.push(Phase { scripts, advance_us: rng.below(300_000), audit: false });
+    // burst + publish + cancellations, all at once
+    let mut scripts: Vec<Vec<Step>> = Vec::new();
+    let n_burst = rng.range(14, 26);
+    let pub_pos = rng.below(n_burst);
+    for i in 0..n_burst {
+        if i == pub_pos {
+            scripts.push(vec![Step::new(Op::Publish { topic: topic.clone(), msgs: msgs_r(&mut rng, 1, 2, false) })]);
+        }
+        let op = match rng.below(3) {
+            0 => Op::GetSub { sub: sub.clone() },
+            1 => Op::ModAck { sub: sub.clone(), sel: Sel { mine: false, pick: Pick::None, extra: vec!["424242".into()], ..Sel::none() }, secs: 10 },
+            _ => Op::Ack { sub: sub.clone(), sel: Sel { mine: false, pick: Pick::None, extra: vec!["424243".into()], ..Sel::none() } },
+        };
+        scripts.push(vec![Step::new(op)]);
+    }
+    for slot in 1..=n_cons {
+        if rng.chance(500) {
+            let pos = rng.below(scripts.len() as u64 + 1) as usize;
+            scripts.insert(pos, vec![Step::new(Op::CancelBg { slot })]);
+        }
+    }
+    plan.phases.push(Phase { scripts, advance_us: 0, audit: true });
+    plan.phases.push(Phase { scripts: vec![], advance_us: 0, audit: true });
+    plan
+}
